@@ -19,7 +19,7 @@ HARNESSES = [
       bounds='index::shape_matmul on static_vector<size_t,4> shapes: both dims 1..4 and all extents 1..MAXE symbolic (every batch-broadcast pattern, 1-d promotion on either side, contraction mismatch)',
       quick=[{'MAXE': 4}], thorough=[{'MAXE': 6}]),
  dict(name='matmul_el', src='harnesses/C16.c', func='h_matmul_el', kernels=['C16_matmul'], unwind=6, bounds='view::matmul (v1, slicing implementation), hybrid operands; ' + EL,
-      quick=[_sh((1, 3), (3, 1)), _sh((2, 3), (3, 2)), _sh((2, 1, 2), (2, 2)), _sh((1, 2, 2), (2, 2, 1))],
+      quick=[_sh((1, 3), (3, 1)), _sh((2, 3), (3, 2)), _sh((2, 1, 2), (2, 2)), _sh((1, 2, 2), (2, 2, 1)), _sh((2, 2), (2, 2, 1))],
       thorough=[_sh((a, k), (k, b)) for a in (1, 2, 3) for k in (1, 2, 3) for b in (1, 2, 3)] + [_sh((2, 1, 2), (1, 2, 2)), _sh((1, 2, 2), (2, 2, 1)), _sh((2, 2), (2, 2, 2))]),
  dict(name='matmulv2_el', src='harnesses/C16.c', func='h_matmul_el', kernels=['C16_matmulv2'], unwind=6, optional=True, timeout=900, mem_gb=10,
       bounds='view::matmulv2 (tile/reshape/transpose/multiply/sum pipeline), hybrid operands, the only implementation that compiles for rank-1 operands; ' + EL,
@@ -43,7 +43,7 @@ HARNESSES += [
  _o('vecdot', 'h_vecdot', [], [((2, 3), (3,)), ((2, 3), (2, 3)), ((2, 3), (1, 3))], 'sum over the last axis of the broadcast product (2-d operands: thorough only, a timeout is recorded as no-verdict)', suffix='_el_2d', mem_gb=12, timeout=900, optional=True),
  # measured: 1-d 22 s; (2,2)x(2,) 126 s / 3.9 GB; (2,2)x(2,2) no verdict in 300 s
  _o('dot', 'h_dotlike', [((3,), (3,))], [((3,), (3,))], 'np.dot'),
- _o('dot', 'h_dotlike', [], [((2, 2), (2,)), ((2, 2), (2, 2)), ((2, 3), (3,))], 'np.dot (2-d operands: thorough only, a timeout is recorded as no-verdict)', suffix='_el_2d', mem_gb=12, timeout=900, optional=True),
+ _o('dot', 'h_dotlike', [], [((2, 2), (2,)), ((2, 2), (2, 2)), ((2, 3), (3,)), ((2,), (2, 2))], 'np.dot (2-d operands: thorough only, a timeout is recorded as no-verdict)', suffix='_el_2d', mem_gb=12, timeout=900, optional=True),
  # measured: 1-d 39 s; (2,2)x(2,) 251 s / 4.0 GB; (2,2)x(2,2) no verdict in 300 s
  _o('inner', 'h_dotlike', [((3,), (3,))], [((3,), (3,))], 'np.inner'),
  _o('inner', 'h_dotlike', [], [((2, 2), (2,)), ((2, 2), (2, 2)), ((2, 3), (3,))], 'np.inner (2-d operands: thorough only, a timeout is recorded as no-verdict)', suffix='_el_2d', mem_gb=12, timeout=900, optional=True),
@@ -70,10 +70,10 @@ def _s(routine, func, dims, what, **kw):
 
 HARNESSES += [
  _s('outer', 'h_outer', [(1, 1), (2, 1), (1, 2)], '(numel a, numel b)'),
- _s('vecdot', 'h_vecdot', [(2, 2), (2, 1)], 'broadcast shape without its last axis'),
+ _s('vecdot', 'h_vecdot', [(2, 2), (2, 1), (1, 2), (1, 1)], 'broadcast shape without its last axis'),
  _s('trace', 'h_trace', [(2, None), (3, None)], 'shape[2:]'),
- _s('dot', 'h_dotlike', [(2, 2), (2, 1)], 'a[:-1] + b[:-2] + b[-1:]'),
- _s('inner', 'h_dotlike', [(2, 2), (2, 1)], 'a[:-1] + b[:-1]'),
+ _s('dot', 'h_dotlike', [(2, 2), (2, 1), (1, 2), (1, 1), (1, 3), (2, 3), (3, 2)], 'a[:-1] + b[:-2] + b[-1:]'),
+ _s('inner', 'h_dotlike', [(2, 2), (2, 1), (1, 2), (1, 1)], 'a[:-1] + b[:-1]'),
  _s('kron', 'h_kron', [(1, 1), (2, 2)], 'elementwise product of the shapes'),
  _s('tensordot', 'h_tensordot', [(2, 2, {'AXES': 1}), (2, 2, {'AXES': 2})], 'a[:-N] + b[N:]', unwind=18),
 ]
